@@ -81,7 +81,12 @@ class Runner:
         tok = w.new_token()
         uid = "c17-" + tok
         body = gen.ical(rng, uid, tok) if kind == "calendar" else gen.vcard(rng, uid, tok)
-        s, r = w.call("put", "PUT", w.url(colpath, name), [("Content-Type", W.CT[kind])], body, record=False)
+        ct = W.CT[kind]
+        if rng.random() < 0.2:
+            # uploaded the way a generic WebDAV client (or curl) does: the server stores such a body as it came
+            ct = rng.choice(["application/octet-stream", "text/plain"])
+            self.res.count("members_uploaded_with_a_generic_content_type")
+        s, r = w.call("put", "PUT", w.url(colpath, name), [("Content-Type", ct)], body, record=False)
         if W.World.success(s.eff):
             self.live.setdefault(colpath, {})[name] = tok
             if name in self.dead.get(colpath, []):
@@ -534,7 +539,8 @@ def check(tier, seed, t0):
     guards = [("href lists", c.get("lists", 0), 1200 * k), ("href classes judged", c.get("hrefs_judged", 0), 6000 * k), ("found answers compared with GET", c.get("found_compared_with_get", 0), 800 * k),
               ("singleton replays", c.get("singleton_replays", 0), 6000 * k), ("answers found", c.get("outcome:found", 0), 800 * k), ("answers not found", c.get("outcome:notfound", 0), 500 * k),
               ("(ETag, data) pairs of multigets concurrent with overwrites", c.get("concurrent_pairs_judged:multiget", 0), 300 * (1 if not th else 6)), ("overwrites during concurrent runs", c.get("concurrent_writes", 0), 100),
-              ("multigets sent to the collection URL without trailing slash", c.get("multigets_to_url_without_trailing_slash", 0), 300 * k)]
+              ("multigets sent to the collection URL without trailing slash", c.get("multigets_to_url_without_trailing_slash", 0), 300 * k),
+              ("members uploaded with a generic content type (stored verbatim)", c.get("members_uploaded_with_a_generic_content_type", 0), 40 * k)]
     for cl in ("emitted", "encoded", "lower-escapes", "absolute-url", "deleted", "never-existed", "other-collection", "other-kind", "collection-itself", "outside-prefix", "sibling-prefix", "empty", "bad-escape", "dot-segments", "bogus-parent-same-basename", "doubled-slash", "sibling-with-name-prefix"):
         guards.append(("class " + cl, c.get("class:" + cl, 0), 20))
     return common.finish(PROP, tier, seed, "exploration", merged, failures, RULE, t0, guards=guards,
